@@ -36,6 +36,18 @@ func corpus() []*refcodec.Packet {
 		p = base
 		p.HasUser, p.User, p.HasPass, p.Pass = true, []byte("u"), true, pat(130, 1)
 		add(p)
+		// zero-length strings are strings: an empty user name with a password, both empty, an
+		// empty password, an empty will message behind a will topic of one character
+		p = base
+		p.HasUser, p.User, p.HasPass, p.Pass = true, nil, true, []byte("secret")
+		add(p)
+		p.Pass = nil
+		add(p)
+		p.User = []byte("u")
+		add(p)
+		p = base
+		p.Will, p.WillTopic, p.WillMessage = true, []byte("w"), nil
+		add(p)
 	}
 	for _, sp := range []bool{false, true} {
 		for code := byte(0); code <= 5; code++ {
